@@ -76,7 +76,7 @@ def main(ctx):
     ctx.coverage["distinct_nontrivial"] = int(ctx.counters["nontrivial"])
     for n in ("recv_over_limit", "recv_within_limit", "header_only_checked", "send_refused",
               "send_accepted", "bomb_over_cap", "bomb_within_cap", "later_message_checked",
-              "failed_1009", "failed_drop"):
+              "failed_1009", "failed_drop", "bomb_while_closing"):
         ctx.require(n)
 
 
@@ -432,7 +432,8 @@ def _job_bomb(a, env):
     for size in sorted(set((cap - 1, cap, cap + 1, 100 * cap, 3 * cap))):
         for pattern in ("zeros", "text"):
             for nframes in (1, 2):
-                for takeover in (True, False):
+                for takeover, closing in ((True, False), (False, False), (True, True)):
+                    # closing: the application has called sendClose(); the peer's message was in flight
                     clear = (b"\x00" * size) if pattern == "zeros" else (b"abcdefgh" * (size // 8 + 1))[:size]
                     c = zlib.compressobj(9, zlib.DEFLATED, -15)
                     body = c.compress(clear) + c.flush(zlib.Z_SYNC_FLUSH)
@@ -477,6 +478,9 @@ def _job_bomb(a, env):
                         b2 = c.compress(cl) + c.flush(zlib.Z_SYNC_FLUSH)
                         wire2 = F.encode(1, b2[:-4], rsv=4, mask=mask)
                         later.append((cl, wire2))
+                    if closing:
+                        ep.proto.sendClose()
+                        stats["bomb_while_closing"] = stats.get("bomb_while_closing", 0) + 1
                     ep.feed(wire)
                     for cl, w2 in later:
                         ep.feed(w2)
@@ -487,6 +491,21 @@ def _job_bomb(a, env):
                     o = _obs(ep)
                     msgs = o["msgs"]
                     over = size > cap
+                    if closing:
+                        # only this is demanded while closing: nothing truncated or altered is delivered,
+                        # nothing escapes
+                        tag = "size=%d cap=%d %s frames=%d while CLOSING" % (size, cap, pattern, nframes)
+                        if o["escapes"]:
+                            bad("escape", tag + " " + o["escapes"][0][:140])
+                        expect_all = [(clear, True)] + [(cl, False) for cl, _ in later]
+                        for m in msgs:
+                            if m not in expect_all or (over and m == (clear, True) and False):
+                                bad("delivered-truncated-or-altered", tag + " delivered len=%d binary=%s" % (
+                                    len(m[0]), m[1]))
+                                break
+                        if over and msgs and msgs[0] == (clear, True):
+                            bad("delivered-despite-cap", tag)
+                        continue
                     stats["bomb_over_cap" if over else "bomb_within_cap"] += 1
                     tag = "size=%d cap=%d %s frames=%d takeover=%s" % (size, cap, pattern, nframes, takeover)
                     if o["escapes"]:
